@@ -22,6 +22,12 @@ the original text, the *same* span must select the text and be recorded.
      as *linear expressions* over the reader's quantities (locals substituted
      along the path, ``get_line_index`` expanded from its definition) -- a symbolic
      identity, not an evaluation.
+ R5  text re-assembled after parsing: the sanitiser's ``reinsert_*`` callbacks
+     overwrite ``source.string`` of a (possibly multi-line) statement with the
+     re-assembled first line plus the continuation lines; the test that decides
+     whether continuation lines are appended must see through blanks after the
+     ``&`` (stripped receiver, or a regex group that cannot end in blanks -- decided
+     on the regex AST).  Shared with C05 R7.
 Not decided: that the spans delivered by the parsers (``item.span``, OMNI
 ``lineno``, the reader's sanitised spans) are right; string-offset based spans
 (``clone_with_span``, line-continuation merging); behaviour after transformations.
@@ -154,6 +160,7 @@ def run(ctx):
     ctx.floor('R1', 'Source constructions cut out of the line table', n1, 6)
     ctx.floor('R3', 'empty Source constructions', n3, 4)
     run_r4(ctx)
+    run_r5(ctx)
 
 
 from sa.linform import lin_py as _lin, same as _same, NotLinear as _NotLinear   # noqa: E402
@@ -204,6 +211,16 @@ def _paths(stmts, env, out):
             continue
         else:
             raise AnalysisError(f'statement kind outside the evaluated fragment: {ast.unparse(st)[:50]}')
+
+
+def run_r5(ctx):
+    """text re-assembled by the sanitiser's re-insertion callbacks still covers the recorded span (shared with C05 R7)"""
+    from sa.rules import c05
+    m = ctx.model
+    mod = m.module_by_path('loki/frontend/preprocessing.py')
+    ctx.rule('R5', 'reinsert_* callbacks overwrite source.string of a multi-line statement: the test that decides whether the continuation '
+                   'lines are appended sees through blanks after the `&`')
+    c05.continued_line_tests(ctx, 'R5', m, mod, c05._registry(m, mod))
 
 
 def run_r4(ctx):
@@ -289,6 +306,8 @@ def X_body(fnode):
 
 F = 'loki/frontend/fparser.py'
 MUTANTS = [
+    Mutant('continuation-test-on-raw-group', 'loki/frontend/preprocessing.py', "                if match['args2'].rstrip().endswith('&'):",
+           "                if match['args2'].endswith('&'):", expect=('R5', 'continuation-test-sees-blanks')),
     Mutant('tail-starts-inside-last-statement', 'loki/frontend/source.py', "        start = self.sanitized_lines[-1].span[1] + 1\n        string = '\\n'.join(self.source_lines[self.get_line_index(start):])",
            "        start = self.sanitized_lines[-1].span[0] + 1\n        string = '\\n'.join(self.source_lines[self.get_line_index(start):])",
            expect=('R4', 'source_from_tail')),
